@@ -56,6 +56,12 @@ theorem tree_gate_default_refuses : Gen.gateDefaultRefuses = true ∧ Gen.gateIs
     This is the theorem that breaks if anyone adds another special case in front of the gate. -/
 theorem preGate_within_known_finding : ∀ n ∈ Gen.preGate, n ∈ ["SYNC", "PSYNC"] := by decide
 
+/-- Every special case in front of the gate has a shape the translator understands: either it calls its
+    handler unconditionally (`Gen.preGate`) or it is guarded exactly like the gate (`Gen.preGateGuarded`).
+    When this fails the model makes NO prediction for the names listed (the driver answers `unknown`) and
+    the check searches for a failing input with the property's oracle alone. -/
+theorem tree_preGate_guards_understood : Gen.preGateUnknownGuard = [] := by decide
+
 /-- The prescribed inclusion fails for the pinned order of processing: SYNC is handled before the gate and is
     not one of AUTH / PING / QUIT. -/
 theorem preGate_subset_allow_fails_pinned : ¬ ∀ n ∈ Cfg.pinned.preGate, n ∈ Spec.harmless := by decide
